@@ -132,6 +132,7 @@ type Job struct {
 	WallS      float64         `json:"wall_s"`
 	MaxSamples int             `json:"max_samples"`
 	Worker     int             `json:"worker"`
+	Repeat     int             `json:"repeat"`
 }
 
 type FoundViolation struct {
@@ -186,6 +187,13 @@ func runWorker(bin string, job *Job, gomaxprocs int, extraEnv ...string) (*Resul
 	err := cmd.Run()
 	logPath := job.Out + ".log"
 	os.WriteFile(logPath, out.Bytes(), 0o644)
+	if err != nil && strings.Contains(out.String(), "race detected during execution of test") {
+		// the testing package fails a test when the race detector has reported anything;
+		// the worker has still done its job and written its result (race tier only)
+		if _, serr := os.Stat(job.Out); serr == nil {
+			err = nil
+		}
+	}
 	if err != nil {
 		tail := out.String()
 		if len(tail) > 6000 {
@@ -309,22 +317,38 @@ func envSeed() uint64 {
 	return 1
 }
 
+// raceEnvGlobal is set for race-tier checks: replays need the same GORACE settings,
+// and because the schedule is not seed-decided there, a replay is attempted several times.
+var raceEnvGlobal []string
+
 func replayFresh(bin, file, outDir string, tag string) (bool, map[string]any, error) {
-	out := filepath.Join(outDir, "replay-"+tag+".json")
-	job := &Job{Mode: "replay", ReplayFile: file, Out: out}
-	if _, err := runWorker(bin, job, 4); err != nil {
-		return false, nil, err
-	}
-	data, err := os.ReadFile(out)
-	if err != nil {
-		return false, nil, err
+	attempts := 1
+	if raceEnvGlobal != nil {
+		attempts = 6
 	}
 	var res map[string]any
-	if err := json.Unmarshal(data, &res); err != nil {
-		return false, nil, err
+	for a := 0; a < attempts; a++ {
+		out := filepath.Join(outDir, fmt.Sprintf("replay-%s-%d.json", tag, a))
+		job := &Job{Mode: "replay", ReplayFile: file, Out: out}
+		if raceEnvGlobal != nil {
+			job.Repeat = 12
+		}
+		if _, err := runWorker(bin, job, 4, raceEnvGlobal...); err != nil {
+			return false, nil, err
+		}
+		data, err := os.ReadFile(out)
+		if err != nil {
+			return false, nil, err
+		}
+		res = map[string]any{}
+		if err := json.Unmarshal(data, &res); err != nil {
+			return false, nil, err
+		}
+		if rep, _ := res["reproduced"].(bool); rep {
+			return true, res, nil
+		}
 	}
-	rep, _ := res["reproduced"].(bool)
-	return rep, res, nil
+	return false, res, nil
 }
 
 func check(prop, tier string) int {
@@ -392,6 +416,11 @@ func check(prop, tier string) int {
 	if plan.Race {
 		gmp = 4
 	}
+	var raceEnv []string
+	if plan.Race {
+		raceEnv = []string{"GORACE=halt_on_error=0 exitcode=0 log_path=" + filepath.Join(b.dir, "race"), "VSIM_RACE_LOG=" + filepath.Join(b.dir, "race")}
+	}
+	raceEnvGlobal = raceEnv
 	for w := range jobs {
 		if len(jobs[w].Scenarios) == 0 {
 			continue
@@ -399,7 +428,7 @@ func check(prop, tier string) int {
 		wg.Add(1)
 		go func(w int) {
 			defer wg.Done()
-			results[w], errs[w] = runWorker(b.bin, jobs[w], gmp)
+			results[w], errs[w] = runWorker(b.bin, jobs[w], gmp, raceEnv...)
 		}(w)
 	}
 	wg.Wait()
@@ -455,9 +484,10 @@ func check(prop, tier string) int {
 		sem := make(chan struct{}, 16)
 		var mmu sync.Mutex
 		var merr error
-		for _, k := range keys {
+		for ki, k := range keys {
+			ki := ki
 			v := reps[k]
-			v.ReplayPath = filepath.Join(replayDir, fmt.Sprintf("%s-%s-%d-%d.json", v.Property, sanitize(v.Fingerprint), seed, v.Index))
+			v.ReplayPath = filepath.Join(replayDir, fmt.Sprintf("%s-%s-%d-%d-%d.json", v.Property, sanitize(v.Fingerprint), seed, v.Index, ki))
 			raw := map[string]any{"property": v.Property, "fingerprint": v.Fingerprint, "message": v.Message, "scenario": v.Scenario,
 				"tier": tier, "base_seed": seed, "index": v.Index, "run_seed": v.RunSeed, "choices": v.Trace, "events": []string{}}
 			data, _ := json.Marshal(raw)
@@ -469,12 +499,12 @@ func check(prop, tier string) int {
 				defer mwg.Done()
 				sem <- struct{}{}
 				defer func() { <-sem }()
-				out := filepath.Join(b.dir, "min-"+sanitize(k)+".json")
+				out := filepath.Join(b.dir, fmt.Sprintf("min-%d.json", ki))
 				budget := 20.0
 				if tier == "thorough" {
 					budget = 60
 				}
-				_, err := runWorker(b.bin, &Job{Mode: "minimise", ReplayFile: v.ReplayPath, Out: out, WallS: budget}, 2)
+				_, err := runWorker(b.bin, &Job{Mode: "minimise", ReplayFile: v.ReplayPath, Out: out, WallS: budget}, 4, raceEnv...)
 				mmu.Lock()
 				defer mmu.Unlock()
 				if err != nil {
@@ -508,11 +538,15 @@ func check(prop, tier string) int {
 	for _, k := range keys {
 		v := reps[k]
 		total := totals[k]
-		rep, _, err := replayFresh(b.bin, v.ReplayPath, b.dir, sanitize(k))
+		rep, _, err := replayFresh(b.bin, v.ReplayPath, b.dir, fmt.Sprintf("%d", indexOf(keys, k)))
 		if err != nil {
 			trouble("replay of %s failed to run: %v", v.ReplayPath, err)
 		}
-		if !rep {
+		if !rep && plan.Race {
+			// race tier: the workload is seed-determined, the schedule is not; the detector's
+			// report (kept in the replay file) stands on its own
+			fmt.Printf("NOTE property=%s fingerprint=%s: the race report did not recur in 72 replays of %s (schedule not seed-decided)\n", v.Property, v.Fingerprint, v.ReplayPath)
+		} else if !rep {
 			fmt.Printf("NONDETERMINISM property=%s fingerprint=%s replay=%s did not reproduce in a fresh process\n", v.Property, v.Fingerprint, v.ReplayPath)
 			trouble("a violation did not reproduce from its replay file; treating as harness trouble")
 		}
@@ -544,6 +578,15 @@ func check(prop, tier string) int {
 	fmt.Printf("check %s %s: runs=%d distinct=%d decisions=%d sim_time=%.0fs wall=%.1fs (build %.1fs) violations=%d known=%d\n",
 		prop, tier, m.runs, len(m.distinctRuns), m.decisions, float64(m.simNs)/1e9, wallS, buildS, nViol, len(knownHit))
 	return exit
+}
+
+func indexOf(keys []string, k string) int {
+	for i, x := range keys {
+		if x == k {
+			return i
+		}
+	}
+	return -1
 }
 
 func sanitize(s string) string {
@@ -641,6 +684,9 @@ func replayCmd(file string) int {
 	}
 	b := build("replay", race)
 	defer os.RemoveAll(b.dir)
+	if race {
+		raceEnvGlobal = []string{"GORACE=halt_on_error=0 exitcode=0 log_path=" + filepath.Join(b.dir, "race"), "VSIM_RACE_LOG=" + filepath.Join(b.dir, "race")}
+	}
 	abs, _ := filepath.Abs(file)
 	rep, res, err := replayFresh(b.bin, abs, b.dir, "cmd")
 	if err != nil {
